@@ -24,15 +24,23 @@ def onObj (p : Params) (o : Obj) : Obj :=
   | .struct fs g gi m => { o with ty := .struct (retypeFirst p o fs) g gi m }
   | _ => o
 
-def objFail (o : Obj) : Option Failure :=
+/-- the trail message of the retyped field calls `ast.TypeName` on its old and its new type -/
+def firstMatchFail (p : Params) (o : Obj) : List Field → Option Failure
+  | [] => none
+  | f :: fs =>
+    if p.field.matchesOF o f then (if typeNameOk f.ty && typeNameOk p.as_ then none else some .panic)
+    else firstMatchFail p o fs
+
+def objFail (p : Params) (o : Obj) : Option Failure :=
   match o.ty with
   | .bad "struct" _ => some .panic
+  | .struct fs _ _ _ => firstMatchFail p o fs
   | _ => none
 
 def apply (p : Params) (S : Schemas) : Schemas := S.map (visitSchema id (fun _ => onObj p))
 
-def fail? (_ : Params) (S : Schemas) : Option Failure :=
-  firstFail (visitSchemaFail (walkFail []) objFail) S
+def fail? (p : Params) (S : Schemas) : Option Failure :=
+  firstFail (visitSchemaFail (walkFail []) (objFail p)) S
 
 def run (p : Params) (S : Schemas) : Outcome Schemas := mkRun (fail? p S) (apply p S)
 
